@@ -221,7 +221,9 @@ def c15(ctx):
     ctx.rule = ("MC_Streams: all 63,680 pipelines (sources <=3 items over 4 values, every source-fault position, chains of depth <=3 over map/filter/filter_map, sink fault 0..3) "
                 "model-checked (prefix, stop, closed form = state machine); Gen_Streams prints them and the harness runs every %s one on the real combinators with both drivers; "
                 "%d seeded random pipelines add iterator-form adapters, to_quads/to_triples, N-Triples and Turtle parser sources (fault before or inside a multi-triple statement), "
-                "collectors and capacity-limited store sinks read back through three index arms. distinct = pipelines with a fault" % ("4th" if ctx.quick() else "single", nrand))
+                "collectors and capacity-limited store sinks read back through three index arms, the RDF/XML parser as a source and the N-Triples serializer over a failing writer as a consumer; "
+                "%d quad pipelines (iterator / N-Quads parser, chains of <= 2 adapters) into insert_all / remove_all of a GraphAsDataset (refuses named graphs), FastDataset and LightDataset with chosen "
+                "initial contents (empty, exactly what the stream removes, random): judged on the contents left, the count, the side blamed and how far the source was pulled. distinct = pipelines with a fault" % ("4th" if ctx.quick() else "single", nrand, nrand // 2))
     ctx.assumptions += ["the closed form Run is what the trace spec evaluates; MC_Streams proves it equal to the step-by-step state machine on the model's bounds"]
 
 
